@@ -136,6 +136,9 @@ EXPECTED_SKELETON = {'iseye': ['if len(_) != 2 or _[0] != _[1]', 'return', 'endi
            'return',
            'endif',
            'else',
+           'if _ == 0',
+           'else',
+           'endif',
            'if twist',
            'return',
            'else',
@@ -161,6 +164,13 @@ EXPECTED_SKELETON = {'iseye': ['if len(_) != 2 or _[0] != _[1]', 'return', 'endi
            'return',
            'endif',
            'else',
+           'if _ == 0',
+           'if twist',
+           'return',
+           'else',
+           'return',
+           'endif',
+           'endif',
            'if twist',
            'return',
            'else',
@@ -245,10 +255,12 @@ EXPECTED_GUARDS = {'iseye': (['len(S.shape) != 2 or S.shape[0] != S.shape[1]'], 
              'theta is None',
              'theta is not None and (not base.isunitvec(_))'],
             []),
- 'trlog': (['abs(np.trace(_) + 1) < K * _eps',
+ 'trlog': (['_ == 0',
+            'abs(np.trace(_) + 1) < K * _eps',
             'base.iseye(T)',
             'base.iseye(_)',
             'base.iseye(_)',
+            'base.norm(base.vex(_)) == 0',
             'ishom(T, check=check)',
             'isrot(T, check=check)',
             'np.dot(_, base.vex((_ - _.T) / 2)) < 0'],
@@ -337,7 +349,7 @@ EXPECTED_SOFT = {'iseye': {'calls': ['eye', 'len', 'norm'], 'consts': ['0', '1',
             'raises': ['ValueError']},
  'unittwist2_norm': {'calls': ['abs', 'getvector', 'iszero', 'norm'], 'consts': ['0', '2', '3'], 'raises': []},
  'unittwist_norm': {'calls': ['getvector', 'iszerovec', 'norm'], 'consts': ['0', '10', '3', '6'], 'raises': []},
- 'unitvec_norm': {'calls': ['getvector', 'norm'], 'consts': ['100'], 'raises': []},
+ 'unitvec_norm': {'calls': ['getvector', 'norm'], 'consts': ['10'], 'raises': []},
  'vex': {'calls': ['ValueError', 'array', 'isskew'], 'consts': ['0', '1', '2', '3'], 'raises': ['ValueError', 'ValueError']}}
 
 # threshold sites: function -> (field of the thr record, comparison operator the model uses, which side k*_eps is on)
@@ -680,6 +692,7 @@ def mk_samplers(ctx, K):
         return [
             ('identity', lambda rng: np.eye(3)),
             ('inside-eye-thr', lambda rng: rot_from_axis_angle(axis(rng), rng.uniform(0.05, 0.3) * ke * EPS)),
+            ('symmetric-residue-st-zero', lambda rng: np.eye(3) + np.diag(rng.uniform(2, 6, size=3) * ke * EPS * rng.choice([0.0, 1.0, -1.0], size=3) + np.array([3 * ke * EPS, 0, 0]))),
             ('general-tiny', lambda rng: rot_from_axis_angle(axis(rng), log_uniform(rng, 2 * ke * EPS, 5e-9))),
             ('general-small', lambda rng: rot_from_axis_angle(axis(rng), log_uniform(rng, 3e-8, 1e-2))),
             ('general-mid', lambda rng: rot_from_axis_angle(axis(rng), rng.uniform(1e-2, math.pi - 1e-2))),
@@ -1393,18 +1406,29 @@ def oracle(ctx, K):
                          f"after overwriting in place the array returned by {name}, {bad[0]} {bad[1][:300]}", dict(rp, corrupted_entry=bad[0], detail=bad[1][:600]))
                 break        # the shared state stays corrupted: later entries would only repeat the same finding
 
-    # the witness of C03_trexp_so3_total_refuted replayed on the implementation (|w| between the two thresholds)
-    if 4 * K['k_zero'] < K['k_unit'] and K['k_zero'] >= 10 and K['k_unit'] <= 100:   # the KNOWN band is 10 eps .. 100 eps
-        wv = np.array([math.sqrt(K['k_zero'] * K['k_unit']) * EPS, 0.0, 0.0])
+    # rotation vectors just above the zero threshold (the band 10..100 eps raised TypeError before fix d900630): must be
+    # exponentiated, to 1e-12
+    for i in range(60):
+        u_ = axis(rng)
+        wv = u_ * (K['k_zero'] * EPS * (1.0 + 10 ** rng.uniform(-3, 1.2)))
         ctx.case(('exp3-tiny', tuple(wv)))
-        try:
-            base.trexp(wv)
-        except TypeError as ex:
-            ctx.fail('oracle:exp3:rodrigues:unitvec_norm-returns-None:raises:TypeError',
-                     f"trexp raises TypeError for a rotation vector of norm {wv[0]:g} (between k_zero*eps and k_unit*eps): {ex}",
-                     {'law': 'exp total', 'w_hex': HX(wv)})
-        except Exception as ex:
-            ctx.fail(f'oracle:exp3:tiny-rotation-vector:raises:{type(ex).__name__}', f"trexp raises {ex}", {'w_hex': HX(wv)})
+        Rt = call('exp3:just-above-zero-threshold', lambda: base.trexp(wv), {'law': 'exp total', 'w_hex': HX(wv)})
+        if Rt is not None:
+            check('exp3:just-above-zero-threshold:vs-first-order', Rt, np.eye(3) + skew_np(wv), 1.0, {'law': 'exp total', 'w_hex': HX(wv)}, tol=1e-12)
+    # the witness of C03_trexp_so3_total_refuted replayed on the implementation: |w| EXACTLY k_unit*eps is neither
+    # "zero" (norm < k_zero eps) nor normalisable (norm > k_unit eps) when the two thresholds coincide
+    if K['k_zero'] == K['k_unit']:
+        for wv in (np.array([K['k_unit'] * EPS, 0.0, 0.0]), np.array([0.6, 0.8, 0.0]) * K['k_unit'] * EPS):
+            if float(np.linalg.norm(wv)) != K['k_unit'] * EPS:
+                continue
+            ctx.case(('exp3-at-threshold', tuple(wv)))
+            try:
+                base.trexp(wv)
+            except TypeError as ex:
+                ctx.fail('oracle:exp3:rodrigues:norm-equals-zero-threshold:raises:TypeError',
+                         f"trexp raises TypeError for a rotation vector of norm exactly {K['k_unit']} eps: {ex}", {'law': 'exp total', 'w_hex': HX(wv)})
+            except Exception as ex:
+                ctx.fail(f'oracle:exp3:at-zero-threshold:raises:{type(ex).__name__}', f"trexp raises {ex}", {'w_hex': HX(wv)})
     exp3(ctx.n(150, 5000))
     explog3(ctx.n(3000, 100000))
     logexp3(ctx.n(2000, 60000))
